@@ -72,14 +72,22 @@ def gen(stream, rng, i, cfg):
         excs = rng.sample(EXC_CATALOGUE, k)
         slot = scen.gen_slot(rng, fault=rng.choice([0.15, 0.4, 0.8]), hostile=rng.random() < 0.6, excs=excs)
     scen.LAZY[0] = False
-    if stream == 'fault' and rng.random() < 0.25:
+    if stream == 'fault' and rng.random() < 0.35:
         # a callback that re-enters the same parser with a (possibly broken) formula, once or on every call;
         # 'maxdepth' keeps the scripted host itself from recursing
         e0 = scen.slot_env(slot)
         inner = formgen.g3_tree(rng, e0, rng.choice([0, 1, 2]))
-        if rng.random() < 0.6:
+        r_ = rng.random()
+        if r_ < 0.35:
+            # fails at its very first token and leaves a long unread tail full of references
+            inner = rng.choice(['#REF!', '#N/A', ')', '1 ~', '"x" "y"', '}']) + rng.choice([',', '+', ';', '']) + \
+                rng.choice(['A1', 'v_0', 'B2:A1', 'F0()', 'REENTER()']) + rng.choice([',', '+']) + inner
+        elif r_ < 0.7:
             inner = formgen.g4_damage(rng, inner)
-        act = {'a': 'nested' if rng.random() < 0.7 else 'nested_thread', 'slot': 0, 'f': inner, 'maxdepth': 1, 'use': rng.random() < 0.7}
+        # (the nested result is only handed on when it cannot be a huge number: it may end up as the argument of a
+        # magnitude-sensitive function of the outer formula - one C call the line-step clock cannot see into)
+        act = {'a': 'nested' if rng.random() < 0.7 else 'nested_thread', 'slot': 0, 'f': inner, 'maxdepth': 1,
+               'use': rng.random() < 0.7 and not formgen.magnifies(inner)}
         if rng.random() < 0.5:
             slot['functions']['REENTER'] = [act]
         else:
@@ -89,6 +97,12 @@ def gen(stream, rng, i, cfg):
     forms, gens = [], []
     for _ in range(FORMULAS_PER_SCENARIO):
         f = formgen.g3_tree(rng, env)
+        if stream == 'fault' and 'REENTER' in slot['functions'] and rng.random() < 0.3:
+            # the re-entering callback fires more than once in one evaluation, with more formula to read afterwards
+            forms.append('REENTER()%sREENTER()%s%s' % (rng.choice(['&', '+', ',']) if rng.random() < 0.8 else '=', rng.choice(['&', '+']), f)
+                         if rng.random() < 0.7 else 'SUM(REENTER(),%s,REENTER())' % f)
+            gens.append('G6')
+            continue
         if stream == 'fault' and rng.random() < 0.12 and (slot['functions'] or slot['variables']):
             # a callback value as the value of the WHOLE formula (not only as an argument)
             names = sorted(slot['variables']) + [n + '()' for n in sorted(slot['functions']) if n not in ('SUM', 'IF', 'ABS', 'LEN')]
